@@ -13,7 +13,9 @@ The judge looks at what the *implementation* did:
     fresh instance of the real code built from the final configuration
     (both observed by the harness — no model involved);
   * and, from the statement's own reading of the final configuration
-    (`specMatches`: same host, url is a prefix, scheme permitted): an accepted
+    (`specMatches`: same host, the url lies under the backend's url — the backend's url, closed by a
+    "/" when written without one, is a prefix of it; a sibling path `/foobar` does not lie under
+    `/foo` —, scheme permitted): an accepted
     URL is matched by the configured backend that was returned, with exactly
     its secret/limit/bitrates (nothing stale, nothing foreign), and a URL that
     some configured backend matches is not rejected.
@@ -39,7 +41,7 @@ def ansOf (b : Backend) : Ans :=
 def specMatches (p : Probe) (b : Backend) : Bool :=
   b.host == p.host &&
   (p.scheme == "https" || (p.scheme == "http" && b.allowHttp)) &&
-  (b.url == "" || hasPrefix b.url p.url)
+  (b.url == "" || hasPrefix (withSlash b.url) p.url)
 
 /-- A url with "." / ".." path segments is attributed to no backend (the web server behind it would
 resolve them before routing); otherwise: some configured backend matches. -/
